@@ -112,6 +112,32 @@ def _guarded_edge(P, R):
         R.hold("a", "detect_cycle walks import_graph from `from`, enqueueing only unvisited modules (terminates)", fn=d)
     else:
         R.violate("a", "cycle-walk", "detect_cycle is not a visited-set walk of import_graph starting at from_module (graph reads=%d, start=%d, guarded enqueues=%d)" % (len(walks), len(start), len(guarded_push)), d)
+    # the walk is exhaustive: a loop of detect_cycle is left either because its queue / iterator is exhausted or towards an
+    # Err return (cycle found). Any other exit (a `break` when a dequeued module has no imports, an early `return Ok`) lets the
+    # answer "no cycle" be given before every reachable module was examined.
+    ok_blocks = [bb for (bb, j, st) in A.aggregates_of(d, "std::result::Result::Ok") if st[3][0] == 0]
+    early = []
+    n_loops = 0
+    for lp in d.loops():
+        drv = A.loop_driver(d, lp)
+        if drv["kind"] not in ("iterator", "pop"):
+            continue
+        n_loops += 1
+        for (b, t, lab) in d.loop_exits(lp):
+            if d.term(b)[2] == "switch":
+                c = strip(d.sym_switch(b))
+                if c[0] == "discr" and strip(c[1])[0] == "call" and strip(c[1])[3] == drv.get("call_bb"):
+                    continue        # the driver's own None edge
+            r = d.reach(t, avoid_blocks=[lp["header"]])
+            outer_headers = [l2["header"] for l2 in d.loops() if l2 is not lp and lp["body"] < l2["body"]]
+            if any(ob in r for ob in ok_blocks) or any(h in r for h in outer_headers):
+                early.append((drv["kind"], d.term(b)[0]))
+    if n_loops >= 2 and not early:
+        R.hold("a", "detect_cycle's walk is exhaustive: its loops end only by exhaustion or towards the cycle error", "%d loops" % n_loops, d)
+    elif early:
+        R.violate("a", "cycle-walk-incomplete", "detect_cycle can leave its %s loop at line %d without having examined every reachable module and still answer `no cycle`: an import that closes a cycle through an unexamined module is accepted" % early[0], d, early[0][1])
+    else:
+        R.undecide("a", "cycle-walk-loops", "expected a queue loop and an inner loop over imports in detect_cycle, found %d" % n_loops, d)
     found = False
     for b in sorted(d.normal_blocks()):
         if d.term(b)[2] == "switch" and A.bool_edges(d, b):
